@@ -567,13 +567,18 @@ func init() {
 
 	// ----- bridge hooks (ophost) --------------------------------------------------------------------------------------
 	for _, m := range []string{"BridgeCreated", "BridgeChallengerUpdated", "BridgeProposerUpdated", "BridgeBatchInfoUpdated", "BridgeMetadataUpdated"} {
+		m := m
 		reg("BridgeHook."+m, "the configured bridge hook may fail; it touches only channel-permission state (perm.admin), never ophost or bank state", func(c *CallCtx) []Outcome {
 			h := handleOf(c.args[1])
+			c.st.hookCalls = append(c.st.hookCalls, HookCall{Name: m, Bridge: c.t(2), Cfg: c.tv(3)})
 			return c.forkFail(func(st *State) []Value {
 				c.x.ghostGet(st, h, "perm.admin", permAdminSort, ghostInfo{Arr: true, Opt: true, Sort: permAdminSort})
 				c.x.ghostSet(st, h, "perm.admin", c.x.enc.FreshConst("perm.admin@hook", permAdminSort))
 				return []Value{nilErr()}
-			}, func(st *State, err TV) []Value { return []Value{err} })
+			}, func(st *State, err TV) []Value {
+				st.hookFailed = true
+				return []Value{err}
+			})
 		})
 	}
 }
@@ -721,4 +726,43 @@ func (x *Exec) bankMintBurn(c *CallCtx, mod string, coins TV, op string) []Outco
 // everything the callback can write is havocked and the result is unconstrained.
 func walkIntrinsic(c *CallCtx) []Outcome {
 	return c.x.walk(c)
+}
+
+const chanSeqSort = "(Array (Pair Bytes Bytes) (Opt Int))"
+
+func init() {
+	permGhost := func(c *CallCtx, h int) string {
+		return c.x.ghostGet(c.st, h, "perm.admin", permAdminSort, ghostInfo{Arr: true, Opt: true, Sort: permAdminSort, ValTy: tBytes})
+	}
+	reg("PermKeeper.IsTaken", "PermKeeper.IsTaken(port,channel) = (a relayer admin is recorded for the channel); it may fail", func(c *CallCtx) []Outcome {
+		h := handleOf(c.args[1])
+		k := app("mkpair", c.t(2), c.t(3))
+		taken := isSomeT(app("select", permGhost(c, h), k), "(Opt Bytes)")
+		return c.forkFail(func(st *State) []Value { return []Value{TV{T: taken, Ty: tBool}, nilErr()} },
+			func(st *State, err TV) []Value { return []Value{TV{T: "false", Ty: tBool}, err} })
+	})
+	reg("PermKeeper.HasAdminPermission", "PermKeeper.HasAdminPermission(port,channel,a) = (the recorded admin equals a); it may fail", func(c *CallCtx) []Outcome {
+		h := handleOf(c.args[1])
+		k := app("mkpair", c.t(2), c.t(3))
+		has := eq(app("select", permGhost(c, h), k), app("Some", c.t(4)))
+		return c.forkFail(func(st *State) []Value { return []Value{TV{T: has, Ty: tBool}, nilErr()} },
+			func(st *State, err TV) []Value { return []Value{TV{T: "false", Ty: tBool}, err} })
+	})
+	reg("PermKeeper.SetAdmin", "PermKeeper.SetAdmin(port,channel,a) records a as the admin of exactly that channel, or fails without effect", func(c *CallCtx) []Outcome {
+		h := handleOf(c.args[1])
+		k := app("mkpair", c.t(2), c.t(3))
+		return c.forkFail(func(st *State) []Value {
+			cur := c.x.ghostGet(st, h, "perm.admin", permAdminSort, ghostInfo{Arr: true, Opt: true, Sort: permAdminSort, ValTy: tBytes})
+			c.x.ghostSet(st, h, "perm.admin", app("store", cur, k, app("Some", c.t(4))))
+			return []Value{nilErr()}
+		}, func(st *State, err TV) []Value { return []Value{err} })
+	})
+	reg("ChannelKeeper.GetNextSequenceSend", "ChannelKeeper.GetNextSequenceSend(port,channel) = (next send sequence, channel exists)", func(c *CallCtx) []Outcome {
+		h := handleOf(c.args[1])
+		g := c.x.ghostGet(c.st, h, "chan.nextSend", chanSeqSort, ghostInfo{Arr: true, Opt: true, Sort: chanSeqSort, ValTy: tUint64})
+		sel := app("select", g, app("mkpair", c.t(2), c.t(3)))
+		ok := isSomeT(sel, "(Opt Int)")
+		c.st.Assume(implies(ok, and(app(">=", app("val", sel), "0"), app("<", app("val", sel), two64))))
+		return c.ret(TV{T: ite(ok, app("val", sel), "0"), Ty: tUint64}, TV{T: ok, Ty: tBool})
+	})
 }
